@@ -1,38 +1,9 @@
-import PP.Driver.Codec
-import PP.Model.Aggregate
-import PP.Model.Names
+import PP.Driver.Ops
 /-
 ppdrv: one JSON request per line on stdin, one JSON response per line on
 stdout.  Runs the executable definitions of the model, nothing else.
 -/
-open Lean PP PP.Codec
-
-def oracleOf : Nat → Oracle
-  | 0 => idOracle
-  | 1 => revOracle
-  | _ => rotOracle
-
-def handle (j : Json) : Except String Json := do
-  let op ← getStr j "op"
-  match op with
-  | "ping" => pure (Json.mkObj [("ok", true)])
-  | "agg" =>
-    let gs ← decGs j "gs"
-    let l ← lvlOfNat (← getNat j "lvl")
-    let π := oracleOf (← getNat j "oracle")
-    if !aggregateSafe l gs then pure (Json.mkObj [("panic", true)]) else
-    pure (Json.mkObj [("buckets", Json.arr ((aggregateWith π l gs).map encBucket).toArray)])
-  | "sig" =>
-    let a ← decSig (← j.getObjVal? "a")
-    let b ← decSig (← j.getObjVal? "b")
-    let l ← lvlOfNat (← getNat j "lvl")
-    pure (Json.mkObj [("similar", Signature.similar l a b), ("equal", Signature.equal a b),
-      ("less", if Signature.lessSafe a b then Json.bool (Signature.less a b) else Json.null),
-      ("merge", if Signature.shapeOK a b then encSig (Signature.merge a b) else Json.null)])
-  | "names" =>
-    let gs ← decGs j "gs"
-    pure (Json.mkObj [("gs", encGs (nameArguments gs))])
-  | _ => throw s!"unknown op {op}"
+open Lean PP
 
 partial def loop (hin hout : IO.FS.Stream) : IO Unit := do
   let line ← hin.getLine
@@ -41,7 +12,7 @@ partial def loop (hin hout : IO.FS.Stream) : IO Unit := do
     match Json.parse line with
     | .error e => Json.mkObj [("error", s!"parse: {e}")]
     | .ok j =>
-      match handle j with
+      match PP.Ops.handle j with
       | .ok r => r
       | .error e => Json.mkObj [("error", e)]
   hout.putStrLn out.compress
